@@ -278,7 +278,11 @@ pub fn gen_case(seed: u64, hist: u64) -> SchedCase {
         vec![]
     } else if w < 85 {
         vec![FaultSpec { role: Role::Worker, kind: Sk::Sync, nth: r.below(25) as u32, action: "eio".into() }]
-    } else if w < 95 {
+    } else if w < 92 {
+        // a burst: 4-8 consecutive failing fdatasyncs (several purge + flush rounds fail in a row, then syncs work again)
+        let n = r.below(16) as u32;
+        (0..r.range(4, 8) as u32).map(|k| FaultSpec { role: Role::Worker, kind: Sk::Sync, nth: n + k, action: "eio".into() }).collect()
+    } else if w < 96 {
         let n = r.below(20) as u32;
         vec![FaultSpec { role: Role::Worker, kind: Sk::Sync, nth: n, action: "eio".into() }, FaultSpec { role: Role::Worker, kind: Sk::Sync, nth: n + 1 + r.below(3) as u32, action: "eio".into() }]
     } else {
